@@ -2,6 +2,8 @@
 From Coq Require Import ZArith QArith List Bool.
 Import ListNotations.
 From HV Require Import Grid.Layout Kernel.Fit Kernel.FitProofs.
+From HVgen Require Import Blocks.
+From HV Require Import Tie.BlockTie.
 Open Scope Z_scope.
 
 (* for the i-th of n matched bands: gain, offset, R2 in bands i, n+i, 2n+i; the band-index map is a bijection onto 1..3n *)
@@ -39,3 +41,10 @@ Print Assumptions C14_corrected_is_gain_src_plus_offset.
 
 Example C14_example : map (fun ik => param_index 3 (fst ik) (snd ik)) [(0, 0); (1, 0); (2, 0); (0, 1); (2, 1); (0, 2); (2, 2)] = [1; 2; 3; 4; 6; 7; 9].
 Proof. reflexivity. Qed.
+
+(* ---- tie to the source: the band index arithmetic, the label loop and the validator of the current fuse.py / utils.py are Grid.Layout's;
+        the corrected band is written to band_i + 1 in the source output window, all parameter bands to the processing-grid output window *)
+Theorem C14_source_layout n i k : gen_param_index n i k = param_index n i k /\ gen_param_write_ok = true /\ gen_corr_write_ok = true /\
+  gen_labels_ok = true /\ gen_validator_ok = true.
+Proof. exact (tie_layout n i k). Qed.
+Print Assumptions C14_source_layout.
